@@ -321,6 +321,25 @@ def key_rule(chk, rel, q, store, fn, name, level):
                 if isinstance(t, ast.Name):
                     defs.setdefault(t.id, []).append(n.value)
 
+    def root_name(e):
+        while isinstance(e, (ast.Subscript, ast.Attribute)):
+            e = e.value
+        return e.id if isinstance(e, ast.Name) else None
+    # an object filled in place is made of everything that is put into it: X.append(v), X[i].append(v), X[i][j] = v
+    for n in ast.walk(fn):
+        if isinstance(n, ast.Call) and isinstance(n.func, ast.Attribute) and n.func.attr in (
+                "append", "extend", "insert", "add", "update", "setdefault", "appendleft"):
+            r = root_name(n.func.value)
+            if r is not None and r != name and r not in params:
+                for a in n.args:
+                    defs.setdefault(r, []).append(a)
+        elif isinstance(n, (ast.Assign, ast.AugAssign)):
+            for t in (n.targets if isinstance(n, ast.Assign) else [n.target]):
+                if isinstance(t, ast.Subscript):
+                    r = root_name(t)
+                    if r is not None and r != name and r not in params:
+                        defs.setdefault(r, []).append(n.value)
+
     def inputs(e, depth=0):
         out = set()
         if e is None or depth > 6:
